@@ -160,6 +160,11 @@ static J gen_slab(Chooser &ch)
       s["a0"] = a_prev; s["a1"] = a1; a_prev = a1;
       segs.push(s);
     }
+  // 20%: a flat-slab start - the first segment has dip 0, so the distance below the slab top of a point is its depth and round
+  // depths are round fractions of the thickness
+  const bool flat = ch.chance(20);
+  if (flat) { segs[0]["a0"] = 0.0; segs[0]["a1"] = 0.0; if (segs.size() > 1) segs[1]["a0"] = 0.0; }
+  c["flat"] = flat;
   c["segments"] = segs;
   c["thick"] = ch.lattice(100e3, 300e3, 50e3);
   c["trunc"] = -ch.lattice(0, 100e3, 50e3);
@@ -206,7 +211,10 @@ static J gen_slab(Chooser &ch)
   for (int i = 0; i < 30; ++i) { J p = J::obj(); p["s"] = ch.real(0.1, 0.9); p["l"] = ch.real(0.02, 0.98); p["n"] = ch.real(-0.3, 1.0) * c["thick"].num(); pts.push(p); }
   // the uppermost kilometres of the fore-arc next to the trench, given directly as horizontal offset and depth
   for (int i = 0; i < 10; ++i) { J p = J::obj(); p["s"] = ch.real(0.1, 0.9); p["ux"] = ch.real(0, 150e3); p["uz"] = ch.chance(50) ? ch.real(50, 3e3) : ch.real(3e3, 40e3); pts.push(p); }
+  // a regular 1 km grid in the flat part
+  if (flat) for (int i = 0; i < 25; ++i) { J p = J::obj(); p["s"] = ch.lattice(0.1, 0.9, 0.1); p["ux"] = 1e3 * static_cast<double>(ch.range(1, 40)); p["uz"] = 1e3 * static_cast<double>(ch.range(1, 99)); pts.push(p); }
   c["points"] = pts;
+  c["layout"] = static_cast<int>(ch.range(0, 1));
   return c;
 }
 
@@ -264,6 +272,8 @@ static Result check_slab(const J &c)
     }
   auto W = make_world(root.dump());
   r.classes.push_back("slab/" + kind + (kind == "mass conserving" ? " ref " + m.at("reference model name").str() : ""));
+  if (c.has("layout") && c.at("layout").num() == 1) r.classes.push_back("temperature requested behind velocity and grains");
+  if (c.has("flat") && c.at("flat").boolean()) r.classes.push_back("flat first segment, probes on a 1 km grid");
   for (const auto &p : c.at("points").a)
     {
       double qx, qy;
@@ -273,7 +283,13 @@ static Result check_slab(const J &c)
       if (depth < 1 || depth > H - 1) continue;
       const double s = p.at("s").num() * len, X = x0 + s * tx + qx * nx, Y = y0 + s * ty + qx * ny;
       std::vector<double> out;
-      try { out = W->properties({{X, Y, H - depth}}, depth, {{{1, 0, 0}}, {{4, 0, 0}}}); }
+      // the temperature asked for first (as the tools do) or behind wide blocks (velocity, grains) in the same request
+      const bool behind = c.has("layout") && c.at("layout").num() == 1;
+      try
+        {
+          if (behind) { const std::vector<double> o2 = W->properties({{X, Y, H - depth}}, depth, {{{5, 0, 0}}, {{3, 0, 1}}, {{1, 0, 0}}, {{4, 0, 0}}}); out = {o2[13], o2[14]}; }
+          else out = W->properties({{X, Y, H - depth}}, depth, {{{1, 0, 0}}, {{4, 0, 0}}});
+        }
       catch (const std::exception &) { r.classes.push_back("model throws(skipped)"); continue; }
       if (out[1] == -1) continue;
       // ambient = what the world holds there without the slab; the upper bound is the larger of that and the background adiabat
